@@ -144,6 +144,7 @@ theorem reprRoundSum_nolow_contract (B : Nat) (hB : 2 ≤ B) (m : Mode) (c : Coa
   have hB0 : 0 < B := by omega
   have hp0 : p ≠ 0 := by omega
   unfold reprRoundSum
+  try simp only [shlDigits_eq, shrDigits_eq]
   simp only [hp0, if_false]
   generalize hrnd : p + (if isSub = true then 1 else 0) = rndP
   have hrp : p ≤ rndP := by rw [← hrnd]; omega
@@ -193,6 +194,7 @@ theorem reprAddLargeSmall_aligned (B : Nat) (hB : 2 ≤ B) (m : Mode) (c : Coars
   have hB0 : 0 < B := by omega
   have hed : 1 ≤ (lhs.exp - rhs.exp).toNat := by omega
   unfold reprAddLargeSmall
+  try simp only [shlDigits_eq, shrDigits_eq]
   generalize hsub : decide (sgn lhs.signif ≠ rs * sgn rhs.signif) = isSub
   have h1 : ¬ (p ≠ 0 ∧ dub rhs.signif + 1 < (lhs.exp - rhs.exp).toNat ∧
       dub rhs.signif + 1 + (p + if isSub = true then 1 else 0) < lhs.digits B + (lhs.exp - rhs.exp).toNat) := by
